@@ -21,12 +21,12 @@ typedef d1::task_group_context ctx_t;
 extern "C" void vp_cancel_result(int tid, int won);
 extern "C" void vp_bound(int tid);
 
-#define NCTX 6
+#define NCTX 7
 #define NTD 2
 // typed, zero-initialised raw storage (no constructor runs until vp_world()); one global per object so that the
 // solver's points-to sets are sets of distinct objects, not symbolic array indices
 template <class T> union raw { T v; raw() {} ~raw() {} };
-static raw<ctx_t> CTX0, CTX1, CTX2, CTX3, CTX4, CTX5;   // 0 = arena default context, others by topology
+static raw<ctx_t> CTX0, CTX1, CTX2, CTX3, CTX4, CTX5, CTX6;   // 0 = arena default context, others by topology
 static raw<thread_data> TD0, TD1;
 static raw<task_dispatcher> DISP0, DISP1;
 static raw<arena> AR;                  // only my_default_ctx / my_threading_control are ever read
@@ -35,7 +35,8 @@ static raw<threading_control_impl> TCI; // only my_cancellation_disseminator
 static raw<cancellation_disseminator> CD;
 static raw<context_list> CL0, CL1;      // handed out by the cache_aligned_allocate stub (typed storage instead of a byte blob)
 static raw<small_object_pool_impl> SOP0, SOP1;
-static ctx_t* const CTXP[NCTX] = { &CTX0.v, &CTX1.v, &CTX2.v, &CTX3.v, &CTX4.v, &CTX5.v };
+static raw<tbb_exception_ptr> EXC0, EXC1;   // exception holders installed by vp_set_exception (empty std::exception_ptr inside)
+static ctx_t* const CTXP[NCTX] = { &CTX0.v, &CTX1.v, &CTX2.v, &CTX3.v, &CTX4.v, &CTX5.v, &CTX6.v };
 static thread_data* const TDP[NTD] = { &TD0.v, &TD1.v };
 static task_dispatcher* const DISPP[NTD] = { &DISP0.v, &DISP1.v };
 #define CTXV(i) (*CTXP[i])
@@ -107,6 +108,17 @@ void vp_set_current(int t, int cur) { set_current(t, &CTXV(cur)); }
 // sequential history step: bind context i on thread t through the real bind_to
 void vp_bind_seq(int i, int t) { task_group_context_impl::bind_to(CTXV(i), &TDV(t)); }
 
+// sequential history steps through the public API (reset_reuse harness)
+unsigned vp_cancel_seq(int i) { return CTXV(i).cancel_group_execution(); }
+void vp_reset_seq(int i) { CTXV(i).reset(); }
+// what the dispatcher does after winning the cancel in its catch block: my_exception = <holder>; slot 0 or 1
+void* vp_set_exception(int i, int slot) {
+  tbb_exception_ptr* e = new (slot ? (void*)&EXC1.v : (void*)&EXC0.v) tbb_exception_ptr(std::exception_ptr());
+  CTXV(i).my_exception.store(e, std::memory_order_release);
+  return e;
+}
+void* vp_exception(int i) { return CTXV(i).my_exception.load(std::memory_order_relaxed); }
+
 // ---- thread bodies
 void vp_thr_bind(ctx_t* c, thread_data* td, int tid) {
   task_group_context_impl::bind_to(*c, td);
@@ -118,6 +130,12 @@ void vp_thr_bindimpl(ctx_t* c, thread_data* td, int tid) {
   vp_bound(tid);
 }
 void vp_thr_cancel(ctx_t* c, int tid) {
+  bool won = c->cancel_group_execution();
+  vp_cancel_result(tid, won);
+}
+// a context is reused: reset, then cancelled again
+void vp_thr_recancel(ctx_t* c, int tid) {
+  c->reset();
   bool won = c->cancel_group_execution();
   vp_cancel_result(tid, won);
 }
